@@ -64,6 +64,83 @@ def cases(rng, tier):
     return cs
 
 
+# ---------------------------------------------------------------- system level: the FSM half
+import engine
+import sysprop as S
+import sysrun
+
+
+def judge(c, e, o, r):
+    """accepted <=> KEEPALIVE reply, OnOpenMessage once with id and capabilities, Established on the
+    remote's KEEPALIVE; otherwise one NOTIFICATION, close, no OnOpenMessage, never Established."""
+    exp_accept = c.meta["acceptable"]
+    onopen = [x for x in o["cbs"] if x[0] == "OnOpenMessage"]
+    est = [x for x in o["cbs"] if x[0] == "OnEstablished"]
+    notifs = [m for m in o["wire"][1:] if m[0] == 3 and m[1][:1] != b"\x06"]
+    kas = [m for m in o["wire"][1:] if m[0] == 4]
+    if exp_accept and c.on_open is None:
+        if len(onopen) != 1 or len(est) != 1 or not kas or notifs:
+            return "acceptable OPEN: OnOpenMessage x%d, OnEstablished x%d, KEEPALIVEs %d, NOTIFICATIONs %s" % (
+                len(onopen), len(est), len(kas), [n[1].hex() for n in notifs])
+        if onopen[0][1] != c.meta["id"] or list(onopen[0][2]) != c.meta["caps"]:
+            return "OnOpenMessage arguments differ from the OPEN sent: %r vs id %d caps %r" % (onopen[0][1:], c.meta["id"], c.meta["caps"])
+        return None
+    if exp_accept and c.on_open is not None:
+        want = bytes([c.on_open[0], c.on_open[1]]) + bytes(c.on_open[2])
+        if len(onopen) != 1 or est or not notifs or notifs[0][1] != want or not o["closed"]:
+            return "plugin notification not sent verbatim / session established anyway"
+        return None
+    if onopen or est:
+        return "unacceptable OPEN (%s): OnOpenMessage x%d, OnEstablished x%d" % (c.meta["fault"], len(onopen), len(est))
+    if len(notifs) != 1 or not o["closed"]:
+        return "unacceptable OPEN (%s): NOTIFICATIONs %s, closed=%s" % (c.meta["fault"], [n[1].hex() for n in notifs], o["closed"])
+    return None
+
+
+def parse_caps(body):
+    """capabilities of a well-formed OPEN body, in order"""
+    caps = []
+    p = body[10:]
+    while len(p) >= 2:
+        t, ln = p[0], p[1]
+        v = p[2:2 + ln]
+        p = p[2 + ln:]
+        while t == 2 and len(v) >= 2:
+            caps.append((v[0], bytes(v[2:2 + v[1]])))
+            v = v[2 + v[1]:]
+    return caps
+
+
+def convs(rng, tier):
+    out = []
+    n = 70 if tier == "quick" else 700
+    for sid in range(n):
+        direction = rng.choice(["in", "out"])
+        lid = rng.choice([0x0A000001, 0x01010101])
+        ras = rng.choice([65000, 1, 65535, 65536, 4200000001])
+        las = ras if rng.random() < 0.3 else 65001
+        body, fault = gen.r_open_single_fault(rng, ras, lid)
+        acceptable = fault in ("none", "asn.trans") or (fault == "id.local" and las != ras)
+        if fault == "asn.low16" and ras <= 65535:
+            acceptable = True
+        on_open = None
+        if acceptable and rng.random() < 0.2:
+            on_open = (rng.choice([2, 6]), rng.randint(0, 9), gen.rbytes(rng, rng.choice([0, 1, 6])))
+        c = S.Conv(sid, direction=direction, local_as=las, remote_as=ras, local_id=lid, on_open=on_open,
+                   hold=rng.choice([0, 90, 180]), tag="open.%s.%s" % (fault, direction))
+        c.send(S.frame(S.OPEN, body)).send(S.frame(S.KEEPALIVE))
+        c.meta = {"acceptable": acceptable, "fault": fault, "id": struct.unpack(">I", body[5:9])[0], "caps": parse_caps(body)}
+        c.judge = judge
+        out.append(c)
+    return out
+
+
+def sys_part(tier, rng, rep, replay):
+    cov = sysrun.run_convs(PID, convs(rng, tier), rep)
+    cov["rule"] = "live handshakes: single-fault OPENs from the grammar, both directions, plugin notifications"
+    return cov
+
+
 def main(tier, seed, replay=None):
     import sys
-    return fnprop.run(sys.modules[__name__], tier, seed, replay)
+    return engine.run_property(sys.modules[__name__], tier, seed, replay)
